@@ -790,6 +790,18 @@ func ruleADTSSequence(c *Ctx, r *Report) {
 		r.Bad("W-SEQ", key, c.Pos(enc.Pos()), fmt.Sprintf("the header written is %d bits, not 56", total))
 		return
 	}
+	// the frame length written counts the payload plus the bytes this encoder writes (total/8): PayloadLength + 7,
+	// whatever HeaderLength a decoded header carries (9 with CRC, which Encode never writes)
+	for _, w := range ws {
+		if fieldRead(w.Call.Args[1], "ADTSHeader", 0) != "PayloadLength" {
+			continue
+		}
+		lf := linOf(w.Call.Args[1], newCanon(), 0)
+		if len(lf.cs) != 1 || lf.k != total/8 {
+			r.Bad("W-SEQ", key, c.Pos(w.Pos()), fmt.Sprintf("the frame length written is not PayloadLength plus the %d bytes of header this encoder writes (constant term %d, %d variable terms)", total/8, lf.k, len(lf.cs)))
+			return
+		}
+	}
 	r.OK("W-SEQ", key, c.Pos(enc.Pos()), fmt.Sprintf("%d bit fields after the sync/ID/layer/protection bits: same widths, same struct fields, same order; 56 bits in all", len(W)))
 }
 
@@ -1019,4 +1031,286 @@ func rangeIndexBound(idx ssa.Value) (ssa.Value, bool) {
 		return nil, false
 	}
 	return cmp.Y, true
+}
+
+// ruleG3D — an index that counts DOWN (a loop variable decremented by a constant) is used only under a dominating
+// test that it has not gone below 0: `for i := len(s)-1; i >= 0; i--`. A loop that stops on another condition
+// (`for …; carry > 0; i--`) indexes s[-1] when that condition outlives the slice.
+func ruleG3D(c *Ctx, r *Report, scope func(*ssa.Function) bool) int {
+	n := 0
+	for _, f := range libFuncs(c, scope) {
+		seen := map[string]int{}
+		for _, l := range naturalLoops(f) {
+			for _, ins := range l.header.Instrs {
+				phi, ok := ins.(*ssa.Phi)
+				if !ok {
+					break
+				}
+				if !isIntType(phi.Type()) {
+					continue
+				}
+				// every in-loop edge is phi - const (const > 0)
+				down := false
+				for i, e := range phi.Edges {
+					if !l.blocks[l.header.Preds[i]] {
+						continue
+					}
+					bo, ok := e.(*ssa.BinOp)
+					if !ok || bo.X != ssa.Value(phi) {
+						down = false
+						break
+					}
+					cs, isC := constSet(bo.Y, 0)
+					if !isC || len(cs) != 1 {
+						down = false
+						break
+					}
+					if (bo.Op == token.SUB && cs[0] > 0) || (bo.Op == token.ADD && cs[0] < 0) {
+						down = true
+					} else {
+						down = false
+						break
+					}
+				}
+				if !down {
+					continue
+				}
+				// signed counters only: an unsigned one wraps and is the loop-test's own business (G10)
+				if bt, ok := phi.Type().Underlying().(*types.Basic); ok && bt.Info()&types.IsUnsigned != 0 {
+					continue
+				}
+				for _, b := range f.Blocks {
+					if !l.blocks[b] {
+						continue
+					}
+					for _, i2 := range b.Instrs {
+						ia, ok := i2.(*ssa.IndexAddr)
+						if !ok || stripConv(ia.Index) != ssa.Value(phi) {
+							continue
+						}
+						n++
+						key := fmt.Sprintf("%s:%s[i] with i counting down", SSAFuncName(f), sliceText(c, f, ia.Pos()))
+						seen[key]++
+						if seen[key] > 1 {
+							key += fmt.Sprintf("#%d", seen[key])
+						}
+						okLow := false
+						if lb, ok := lowerBoundAt(phi, b, 0); ok && lb >= 0 {
+							okLow = true
+						}
+						if !okLow {
+							// i > v (or i >= v) with v itself shown non-negative
+							hasDominatingTest(phi, b, func(cond ssa.Value, truth bool) bool {
+								bo, ok := cond.(*ssa.BinOp)
+								if !ok {
+									return false
+								}
+								op, x, y := bo.Op, bo.X, bo.Y
+								if !truth {
+									op = map[token.Token]token.Token{token.LSS: token.GEQ, token.GEQ: token.LSS, token.GTR: token.LEQ, token.LEQ: token.GTR}[op]
+								}
+								if stripConv(y) == ssa.Value(phi) {
+									x, y = y, x
+									op = map[token.Token]token.Token{token.LSS: token.GTR, token.GTR: token.LSS, token.LEQ: token.GEQ, token.GEQ: token.LEQ}[op]
+								}
+								if stripConv(x) != ssa.Value(phi) || (op != token.GTR && op != token.GEQ) {
+									return false
+								}
+								if lb, ok := lowerBoundAt(y, b, 0); ok && (lb >= 0 || (op == token.GTR && lb >= -1)) {
+									okLow = true
+									return true
+								}
+								// the bound is a parameter of an unexported helper: every call site passes a value shown
+								// to be large enough
+								if par, isPar := stripConv(y).(*ssa.Parameter); isPar {
+									if lb, ok := paramLowerBoundAtCallers(c, f, par); ok && (lb >= 0 || (op == token.GTR && lb >= -1)) {
+										okLow = true
+										return true
+									}
+								}
+								return false
+							})
+						}
+						if okLow {
+							r.OK("G3D", key, c.Pos(ia.Pos()), "a dominating test keeps the index at 0 or above")
+						} else {
+							r.Bad("G3D", key, c.Pos(ia.Pos()), "the index counts down and no dominating test keeps it at 0 or above: index out of range [-1] when the loop's other condition outlives the slice")
+						}
+					}
+				}
+			}
+		}
+	}
+	return n
+}
+
+// ruleGOVF — a bounds test that adds an untrusted wide value before comparing (`pos+n > len`) can be defeated by
+// overflow: for n near the maximum the sum wraps negative and the test passes. In the byte readers a comparison one of
+// whose sides is a sum with an operand that carries 63 or more untrusted bits (through the call graph: ReadBytes is
+// handed int(hdr.Size-hdrlen) of a 64-bit box size) must be preceded by a test that bounds that operand from above.
+// The overflow-safe form compares the operand with a difference (`pos > len-n`, n >= 0).
+func ruleGOVF(c *Ctx, r *Report, scope func(*ssa.Function) bool) int {
+	ts := runTaint(c)
+	n := 0
+	for _, f := range libFuncs(c, scope) {
+		idx := 0
+		for _, b := range f.Blocks {
+			if len(b.Instrs) == 0 {
+				continue
+			}
+			ifi, ok := b.Instrs[len(b.Instrs)-1].(*ssa.If)
+			if !ok {
+				continue
+			}
+			bo, ok := ifi.Cond.(*ssa.BinOp)
+			if !ok {
+				continue
+			}
+			switch bo.Op {
+			case token.LSS, token.LEQ, token.GTR, token.GEQ:
+			default:
+				continue
+			}
+			for _, side := range []ssa.Value{bo.X, bo.Y} {
+				sum, ok := stripConv(side).(*ssa.BinOp)
+				if !ok || sum.Op != token.ADD || typeBits(sum.Type()) < 64 {
+					continue
+				}
+				for _, o := range []ssa.Value{sum.X, sum.Y} {
+					// the amount handed in (a parameter), not the cursor it is added to
+					par, isPar := stripConv(o).(*ssa.Parameter)
+					if !isPar {
+						continue
+					}
+					t := ts.get(par)
+					n++
+					idx++
+					key := fmt.Sprintf("%s:sum-in-bounds-test#%d", SSAFuncName(f), idx)
+					if t == nil || t.bits < 63 {
+						nb := 0
+						if t != nil {
+							nb = t.bits
+						}
+						r.OK("G-OVF", key, c.Pos(bo.Pos()), fmt.Sprintf("every caller passes a constant or at most %d untrusted bits for %s: the sum cannot overflow", nb, par.Name()))
+						continue
+					}
+					if _, ok := upperBoundAt(stripConv(o), b); ok {
+						r.OK("G-OVF", key, c.Pos(bo.Pos()), "the wide operand is bounded from above before the sum is compared")
+					} else {
+						r.Bad("G-OVF", key, c.Pos(bo.Pos()), fmt.Sprintf("a bounds test compares a sum one of whose operands carries %d untrusted bits (%s) and is not bounded from above first: the sum can overflow and pass the test", t.bits, rootNames(t)))
+					}
+				}
+			}
+		}
+	}
+	return n
+}
+
+// ruleNegConv (L-NEGCONV): a signed difference `a - c` converted to an unsigned type wraps to a huge value when a < c.
+// Where such a value bounds a loop or an index (uint64(len(sample) - 4) as the last start position), a dominating test
+// must show a >= c (or the difference non-negative).
+func ruleNegConv(c *Ctx, r *Report, scope func(*ssa.Function) bool) int {
+	n := 0
+	for _, f := range libFuncs(c, scope) {
+		idx := 0
+		for _, b := range f.Blocks {
+			for _, ins := range b.Instrs {
+				cv, ok := ins.(*ssa.Convert)
+				if !ok {
+					continue
+				}
+				to, ok1 := cv.Type().Underlying().(*types.Basic)
+				from, ok2 := cv.X.Type().Underlying().(*types.Basic)
+				if !ok1 || !ok2 || to.Info()&types.IsUnsigned == 0 || from.Info()&types.IsInteger == 0 || from.Info()&types.IsUnsigned != 0 {
+					continue
+				}
+				sub, ok := cv.X.(*ssa.BinOp)
+				if !ok || sub.Op != token.SUB {
+					continue
+				}
+				cs, ok := constSet(sub.Y, 0)
+				if !ok || len(cs) != 1 || cs[0] <= 0 {
+					continue
+				}
+				// the minuend is a length or a signed parameter (something that can be smaller than the constant)
+				min := stripConv(sub.X)
+				isLen := false
+				if call, ok := min.(*ssa.Call); ok {
+					if bi, ok := call.Call.Value.(*ssa.Builtin); ok && bi.Name() == "len" {
+						isLen = true
+					}
+				}
+				_, isPar := min.(*ssa.Parameter)
+				if !isLen && !isPar {
+					continue
+				}
+				// only when the converted value takes part in a comparison or an index (a bound)
+				used := false
+				for _, ref := range *cv.Referrers() {
+					switch x := ref.(type) {
+					case *ssa.BinOp:
+						switch x.Op {
+						case token.LSS, token.LEQ, token.GTR, token.GEQ:
+							used = true
+						}
+					case *ssa.IndexAddr, *ssa.Slice:
+						used = true
+					}
+				}
+				if !used {
+					continue
+				}
+				n++
+				idx++
+				key := fmt.Sprintf("%s:unsigned(a-%d)#%d", SSAFuncName(f), cs[0], idx)
+				if lb, ok := lowerBoundAt(sub.X, b, 0); ok && lb >= cs[0] {
+					r.OK("L-NEGCONV", key, c.Pos(cv.Pos()), fmt.Sprintf("a dominating test shows the minuend to be at least %d", cs[0]))
+				} else if lb2, ok2 := lowerBoundAt(min, b, 0); ok2 && lb2 >= cs[0] {
+					r.OK("L-NEGCONV", key, c.Pos(cv.Pos()), fmt.Sprintf("a dominating test shows the minuend to be at least %d", cs[0]))
+				} else {
+					r.Bad("L-NEGCONV", key, c.Pos(cv.Pos()), fmt.Sprintf("a signed difference (length or parameter minus %d) is converted to an unsigned type and used as a bound with no dominating test that it is non-negative: for short input it wraps to a huge value", cs[0]))
+				}
+			}
+		}
+	}
+	return n
+}
+
+// paramLowerBoundAtCallers: f is unexported and at every repository call site the argument for par has a lower
+// bound established by a dominating test; returns the smallest of them.
+func paramLowerBoundAtCallers(c *Ctx, f *ssa.Function, par *ssa.Parameter) (int64, bool) {
+	if f.Object() == nil || f.Object().Exported() {
+		return 0, false
+	}
+	idx := -1
+	for i, p := range f.Params {
+		if p == par {
+			idx = i
+		}
+	}
+	node := c.CallGraph().Nodes[f]
+	if idx < 0 || node == nil || len(node.In) == 0 {
+		return 0, false
+	}
+	best := int64(1) << 62
+	for _, e := range node.In {
+		if e.Site == nil || idx >= len(e.Site.Common().Args) {
+			return 0, false
+		}
+		a := e.Site.Common().Args[idx]
+		lb, ok := lowerBoundAt(a, e.Site.Block(), 0)
+		if !ok {
+			if cs, isC := constSet(a, 0); isC && len(cs) > 0 {
+				mn, _ := minMax(cs)
+				lb, ok = mn, true
+			}
+		}
+		if !ok {
+			return 0, false
+		}
+		if lb < best {
+			best = lb
+		}
+	}
+	return best, true
 }
